@@ -46,7 +46,8 @@ def gen_rows(rng):
 def write_real(rows, path):
     m = compat()
     with m._open_csv(path, "w") as f:
-        w = m._csv_writer(f, lineterminator="\n", delimiter="|", quotechar='"')
+        # the tools' own writer; a tree that lacks it writes with the standard library's writer, same parameters (as the tools did before c9ae9f5)
+        w = getattr(m, "_csv_writer", csv.writer)(f, lineterminator="\n", delimiter="|", quotechar='"')
         for r in rows:
             w.writerow(r)
     with open(path, "r", newline="", encoding="utf-8") as f:
